@@ -1689,6 +1689,36 @@ def check_end2(f):
 
 
 # ---- PTRCOUNT: a (pointer, count) buffer is indexed below count --------------------------------------------------------
+COUNT_NAME = re.compile(r"^(count|n|num|len|length|cnt)$")
+
+
+def count_subscripts(f):
+    """[(node, count name, base)]: `p[count]` / `*(p + count)` where count is the function's element-count parameter and p a
+    pointer parameter or a local pointer of a function that has pointer parameters"""
+    ptrs = set(p["n"] for p in f["params"] if p.get("n") and p["ty"].strip().endswith("*"))
+    counts = [p["n"] for p in f["params"] if p.get("n") and COUNT_NAME.match(p["n"]) and "*" not in p["ty"] and "&" not in p["ty"]]
+    if not ptrs or len(counts) != 1:
+        return []
+    cnt = counts[0]
+    local_ptrs = set()
+    for st in astx.walk_stmts(f["body"]):
+        if st.get("k") == "decl":
+            for v in st["vars"]:
+                if "*" in (v.get("ty") or "") and v.get("n"):
+                    local_ptrs.add(v["n"])
+    out = []
+    for x in astx.all_exprs(f, into_lambdas=False):
+        if x.get("k") == "idx" and ref_name(x["i"]) == cnt and ref_name(x["b"]) in (ptrs | local_ptrs):
+            out.append((x, cnt, ref_name(x["b"])))
+        if x.get("k") == "un" and x["op"] == "*":
+            t = astx.strip_casts(x["e"])
+            if t is not None and t.get("k") == "bin" and t["op"] == "+":
+                for a, b in ((t["l"], t["r"]), (t["r"], t["l"])):
+                    if ref_name(a) in (ptrs | local_ptrs) and ref_name(b) == cnt:
+                        out.append((x, cnt, ref_name(a)))
+    return out
+
+
 def counted_buffer_area(chk, db, prefixes, rule="PTRCOUNT", floor=0):
     """Functions that receive raw pointers together with one element count (`char_traits::find(s, count, ch)`, `copy`, `move`,
     `assign`, `compare`, the mem* / str*n family): every subscript of a pointer parameter by a loop counter is inside a loop
@@ -1763,6 +1793,17 @@ def counted_buffer_area(chk, db, prefixes, rule="PTRCOUNT", floor=0):
                 chk.violation(rule, label, "index-reaches-count", "%s: %s" % (astx.loc(f, lp), why), {"where": astx.loc(f)})
             elif verdict is None:
                 chk.unknown_instance(rule, label, why)
+    # the count itself as a subscript: element `count` of a buffer of `count` elements
+    for f in db.funcs:
+        if f.get("body") is None or not any(f["file"].startswith(p) for p in prefixes):
+            continue
+        for x, cnt, base in count_subscripts(f):
+            label = "%s :: `%s`" % (astx.sig(f), astx.show(x, 40))
+            chk.instance(rule)
+            chk.obligation(rule, label, False)
+            chk.violation(rule, label, "subscript-is-the-count", "%s: `%s` addresses element `%s` of a range that `%s` counts: that is "
+                          "one past its last element (and further out when fewer elements were used)" % (astx.loc(f, x), astx.show(x, 40), cnt, cnt),
+                          {"where": astx.loc(f)})
     if n < floor:
         chk.analysis_broken("%s: only %d counted loops over pointer parameters in %s (floor %d)" % (rule, n, ", ".join(prefixes), floor))
     return n
@@ -1962,14 +2003,31 @@ def check_counted(f):
                 op = {"<": ">=", "<=": ">", ">": "<=", ">=": "<", "==": "!=", "!=": "=="}[op]
             return (op == ">" and k >= 0) or (op == ">=" and k >= 1) or (op == "!=" and k == 0)
         return False
+    nonneg = [False]
+
+    def nonnegative(c, taken):
+        from .arith import atoms as _atoms, FLIP as _FLIP
+        for op, l, r in _atoms(c, taken):
+            for a, b, o in ((l, r, op), (r, l, _FLIP[op])):
+                if ref_name(a) == cnt:
+                    try:
+                        k = astx.int_value(astx.strip_casts(b))
+                    except Exception:
+                        k = None
+                    if k is not None and ((o == ">=" and k >= 0) or (o == ">" and k >= -1)):
+                        return True
+        return False
     for p in SP.paths(f["body"]):
         pos = False
+        nonneg[0] = False
         for ev in p:
             if ev[0] == "cond":
                 if id(ev[1]) in loop_conds:
                     break
                 if positive(ev[1], ev[2]):
                     pos = True
+                if nonnegative(ev[1], ev[2]):
+                    nonneg[0] = True
                 continue
             if ev[0] in ("backedge-cond", "loop-exit", "opaque"):
                 break
@@ -1985,6 +2043,22 @@ def check_counted(f):
                         seen.add(id(x))
                         out.append((x, pos, "" if pos else "`%s` is dereferenced outside any loop on a path that has not established `%s > 0`: "
                                     "for a count of 0 an element of an empty range is accessed" % (t["n"], cnt)))
+                # `it + count` / next(it, count) handed on as the end of a range: a negative count (the *_n algorithms do nothing
+                # for count <= 0) turns it into an end in front of its begin
+                is_end = False
+                if x.get("k") == "bin" and x["op"] == "+" and ref_name(x["l"]) in its and \
+                        any(y.get("k") == "ref" and y.get("n") == cnt for y in astx.walk_expr(x["r"])):
+                    is_end = True
+                if x.get("k") == "call" and astx.callee(x)[0] in ("next", "advance") and len(x["a"]) == 2 and ref_name(x["a"][0]) in its and \
+                        any(y.get("k") == "ref" and y.get("n") == cnt for y in astx.walk_expr(x["a"][1])):
+                    is_end = True
+                if is_end and id(x) not in seen:
+                    seen.add(id(x))
+                    signed_count = not re.search(r"size_t|unsigned", next((p0["ty"] for p0 in f["params"] if p0.get("n") == cnt), ""))
+                    ok = pos or nonneg[0] or not signed_count
+                    out.append((x, ok, "" if ok else "`%s` forms the end of a range from the count on a path that has not established `%s > 0` "
+                                "(or >= 0): for a negative count the end lies in front of the begin and the range algorithm it is handed to "
+                                "runs away" % (astx.show(x, 40), cnt)))
     return out
 
 
@@ -2700,3 +2774,14 @@ def typed_functor_control(chk, D):
         chk.analysis_broken("TYPEDFUN: the positive control fixture::same_value was not reported")
     if "same_value_plain" not in fxf or check_typed_functor(chk, fxf["same_value_plain"]):
         chk.analysis_broken("TYPEDFUN: the negative control fixture::same_value_plain was reported")
+
+
+def count_subscript_control(chk, D):
+    import os
+    fx_path = os.path.join(D.VERIF, "fixtures", "arith_pos.hpp")
+    fx = D.load_source('#include "%s"\n' % fx_path, root=os.path.dirname(fx_path) + "/", tag="fixture-arith")
+    fxf = dict((g["n"], g) for g in fx.funcs)
+    if not ("terminate_at_count" in fxf and count_subscripts(fxf["terminate_at_count"])):
+        chk.analysis_broken("PTRCOUNT: the positive control fixture::terminate_at_count was not reported")
+    if "terminate_behind_copy" not in fxf or count_subscripts(fxf["terminate_behind_copy"]):
+        chk.analysis_broken("PTRCOUNT: the negative control fixture::terminate_behind_copy was reported")
